@@ -1302,11 +1302,30 @@ func (w *world) genLock(c *cClient, dev bool) *opSpec {
 			}
 		}
 	}
+	if dev && w.pct(60, "preferUsedOwner") {
+		// A lock-owner that has been used before (on another open): its
+		// lock seqid is then subject to the ordering rules although the
+		// request carries new_lock_owner.
+		for _, x := range cands {
+			if _, have := co.locks[x.key]; have || x.seq == 0 {
+				continue
+			}
+			for _, other := range c.allOpens() {
+				if _, have := other.locks[x.key]; have && other != co {
+					lo = x
+				}
+			}
+		}
+	}
 	op := &opSpec{Kind: kLock, FH: co.fh, NewLO: true, Owner: o.key, Seq: o.nxt(), Stateid: co.sid, LockOwner: lo.key, LockCID: c.useCID(), LockSeq: lo.nxt(), LockType: lt, Offset: off, Length: length}
 	if _, have := co.locks[lo.key]; have {
 		op.Note = "new_lock_owner_flag_with_existing_state"
 	} else if dev {
-		switch pick(w, "devkind", []string{"state", "range", "lock_cid_mismatch", "lseq"}) {
+		devkinds := []string{"state", "range", "lock_cid_mismatch", "lseq"}
+		if lo.seq > 0 {
+			devkinds = append(devkinds, "lseq", "lseq")
+		}
+		switch pick(w, "devkind", devkinds) {
 		case "range":
 			w.devRange(op)
 		case "lock_cid_mismatch":
